@@ -94,6 +94,13 @@ def _unz(v):
     return v
 
 
+def _infallible_widening(F, t):
+    """t is the call `usize::try_from(x: u32)` and the build's usize has at least 32 bits (the layout table of the build analysed):
+    the conversion cannot fail (std: `try_from_upper_bounded` is only generated for narrower targets)"""
+    return isinstance(t, tuple) and len(t) > 2 and t[0] == "call" and len(t[2]) == 1 and \
+        str(t[1]) == "core::convert::num::ptr_try_from_impls::<impl core::convert::TryFrom<u32> for usize>::try_from" and (F.size_of("usize") or 0) >= 4
+
+
 _STD_VARIANT_DISCR = {("core::option::Option", "None"): 0, ("core::option::Option", "Some"): 1,
                       ("core::result::Result", "Ok"): 0, ("core::result::Result", "Err"): 1}
 
@@ -638,6 +645,10 @@ class TB:
                 ops = t[2]
                 if idx < len(ops):
                     return ops[idx]
+            if idx == 0 and t[0] == "dc" and t[2] == 0 and _infallible_widening(self.F, t[1]):
+                # payload of Ok(..) of usize::try_from(u32): the value, zero-extended
+                a0 = t[1][2][0]
+                return a0 if a0[0] == "c" else ("zext", a0, "u32", "usize")
             if idx == 0 and t[0] == "dc" and t[2] == 1 and t[1][0] == "checked":
                 # payload of Some(..) of x.checked_op(y) is x op y (the Some edge is the no-overflow fact, guard.edge_facts)
                 c = t[1]
@@ -700,6 +711,8 @@ class TB:
                 da, db = self._variant_discr(pv[2]), self._variant_discr(pv[3])
                 if da is not None and db is not None:
                     return ("ite", pv[1], C(da), C(db))
+            if _infallible_widening(self.F, pv):
+                return C(0)          # usize::try_from(u32) is Ok on a target whose usize has 32 bits or more
             if pv[0] == "aggr" and pv[1][0] == "adt" and len(pv[1]) > 2 and (pv[1][1], pv[1][2]) in _STD_VARIANT_DISCR:
                 return C(_STD_VARIANT_DISCR[(pv[1][1], pv[1][2])])
             return ("discr", pv)
@@ -1087,6 +1100,8 @@ def std_summary(tb, path, upath, fr, args):
             es, opn = 1, "add"
         if opn == "wrapping_add":
             opn = "add"
+        if args[1] == ("c", 0):
+            return args[0]          # p.add(0) / p.offset(0) is p
         return ("ptrop", opn, args[0], args[1], es if es is not None else ("sizeof", g[0] if g else "?"))
     if path in ("core::ptr::const_ptr::<impl *const T>::align_offset", "core::ptr::mut_ptr::<impl *mut T>::align_offset"):
         return ("align_offset", args[0], args[1])
